@@ -12,8 +12,10 @@ do before their own `RefreshAssignments()`).  Two protocols are modelled:
 * `stepOld` — the code before the fix: candidates built and compared *without* the lock, the lock taken only when a change
   was found; `SetAssignedPartitions` unsynchronised.
 
-The set of partitions with an outstanding request (`req`) is fixed: requests arriving meanwhile are picked up by the next
-refresh, which is what the statement grants ("once its periodic refresh has run").
+The set of partitions with an outstanding request changes too (`setReq`: a request filed or received, a completion recorded —
+under the tracker's own lock, at any moment); such a change is picked up by the next refresh, which is what the statement
+grants ("once its periodic refresh has run"): the ghost flag `stale` records that the tracker changed after the last refresh
+built its candidates.
 -/
 namespace Firebolt.RefreshConc
 
@@ -22,6 +24,9 @@ abbrev Part := Int
 inductive Call where
   | refresh
   | setOwned (o : List Part)
+  | setReq (r : List Part)        -- the tracker's set of partitions with an outstanding request changes (a request is filed or
+                                  -- arrives from another instance, a completion is recorded): under the tracker's own lock, not
+                                  -- under partitionAssignmentLock; whoever does it calls `refresh` afterwards or leaves it to the ticker
 deriving DecidableEq, Repr
 
 inductive PC where
@@ -45,6 +50,8 @@ structure Sh where
   active : List Part := []         -- keys of rc.activePartitionMap
   client : List Part := []         -- what the recovery client is assigned
   holder : Option Nat := none      -- goroutine holding partitionAssignmentLock
+  reqs : List Part := []           -- partitions with an outstanding request (the tracker)
+  stale : Bool := false            -- ghost: the tracker changed after the last refresh built its candidates
 deriving Repr
 
 structure Sys where
@@ -64,19 +71,21 @@ lists, see `Properties/RefreshConc.code_test_iff`) -/
 def sameSet (c a : List Part) : Bool := c.all (a.contains ·) && a.all (c.contains ·)
 
 /-- one step of goroutine `i` under the current protocol; `none` when it cannot move (no call left, or waiting for the lock) -/
-def step (req : Part → Bool) (s : Sys) (i : Nat) : Option Sys :=
+def step (s : Sys) (i : Nat) : Option Sys :=
   let t := s.th i
   match t.todo with
   | [] => none
   | call :: rest =>
     match t.pc, call with
+    | .start, .setReq r => some { sh := { s.sh with reqs := r, stale := true }, th := upd s.th i { todo := rest, pc := .start } }
     | .start, _ =>
       if s.sh.holder = none then some { sh := { s.sh with holder := some i }, th := upd s.th i { t with pc := .held } } else none
     | .held, .setOwned o => some { sh := { s.sh with owned := o }, th := upd s.th i { t with pc := .finishing } }
+    | .held, .setReq _ => none
     | .held, .refresh =>
-      let c := cand req s.sh.owned
-      if sameSet c s.sh.active then some { s with th := upd s.th i { t with pc := .finishing } }
-      else some { sh := { s.sh with client := [] }, th := upd s.th i { t with pc := .unassigned c } }
+      let c := cand (fun p => s.sh.reqs.contains p) s.sh.owned
+      if sameSet c s.sh.active then some { sh := { s.sh with stale := false }, th := upd s.th i { t with pc := .finishing } }
+      else some { sh := { s.sh with client := [], stale := false }, th := upd s.th i { t with pc := .unassigned c } }
     | .unassigned c, _ => some { sh := { s.sh with active := c }, th := upd s.th i { t with pc := .installed c } }
     | .installed c, _ => some { sh := { s.sh with client := c }, th := upd s.th i { t with pc := .finishing } }
     | .finishing, _ => some { sh := { s.sh with holder := none }, th := upd s.th i { todo := rest, pc := .start } }
@@ -91,6 +100,7 @@ def stepOld (req : Part → Bool) (s : Sys) (i : Nat) : Option Sys :=
   | call :: rest =>
     match t.pc, call with
     | .start, .setOwned o => some { sh := { s.sh with owned := o }, th := upd s.th i { todo := rest, pc := .start } }
+    | .start, .setReq r => some { sh := { s.sh with reqs := r }, th := upd s.th i { todo := rest, pc := .start } }
     | .start, .refresh =>
       let c := cand req s.sh.owned
       if sameSet c s.sh.active then some { s with th := upd s.th i { todo := rest, pc := .start } }
@@ -113,6 +123,7 @@ def run (stp : Sys → Nat → Option Sys) (s : Sys) : List Nat → Sys
 def wfCalls : List Call → Bool
   | [] => true
   | .refresh :: r => wfCalls r
+  | .setReq _ :: r => wfCalls r
   | .setOwned _ :: r => r.contains .refresh && wfCalls r
 
 end Firebolt.RefreshConc
